@@ -57,12 +57,20 @@ type Engine struct {
 var repoDir = "/repo"
 var verifDir = "/verif"
 
+// outDir: where evidence, replays and scratch build output go (VERIF_OUT redirects them for runs against
+// scratch copies of the repository, so that the registered evidence is not overwritten).
+var outDir = "/verif"
+
 func init() {
 	if d := os.Getenv("VERIF_REPO"); d != "" {
 		repoDir = d
 	}
 	if d := os.Getenv("VERIF_DIR"); d != "" {
 		verifDir = d
+		outDir = d
+	}
+	if d := os.Getenv("VERIF_OUT"); d != "" {
+		outDir = d
 	}
 }
 
